@@ -24,6 +24,8 @@ def main():
         env = {"CARGO_TARGET_DIR": wt + "/target"}
         for n in (1, 2, 3):
             patch = "%s/seed/patch%d.diff" % (wt, n)
+            if not os.path.exists(patch) and os.path.exists("%s/seed/mutant%d.diff" % (wt, n)):
+                shutil.copy("%s/seed/mutant%d.diff" % (wt, n), patch)
             demo = "%s/seed/demo%d.rs" % (wt, n)
             if not os.path.exists(patch):
                 continue
@@ -78,6 +80,8 @@ def main():
                 shutil.copy(patch.replace(".diff", ".adapted.diff"), d + "/patch.adapted.diff")
             shutil.copy(demo, d + "/demo.rs")
             notes = "%s/seed/notes%d.md" % (wt, n)
+            if not os.path.exists(notes):
+                notes = "%s/seed/needs%d.txt" % (wt, n)
             meta["needs"] = open(notes).read() if os.path.exists(notes) else ""
             json.dump(meta, open(d + "/meta.json", "w"), indent=1)
             print(name, "confirmed;", {k: ("CAUGHT" if v["violation"] else "missed(rc=%d)" % v["rc"]) for k, v in caught.items()})
